@@ -27,8 +27,8 @@ RULE = (
     "empty, storyIDs, itemIDs, stories, items (nested itemID only), storyID+itemID mixture}; (b) "
     "Hypothesis documents: an envelope with 0-1 recognised top-level message element among "
     "arbitrary other children, arbitrary payloads, nested decoys, non-MOS XML, and text damaged by "
-    "truncation / character deletion / insertion.  Every document is classified from str, bytes and "
-    "a file, under warning filter 'default' and 'error' (in-process; thorough additionally samples "
+    "truncation / character deletion / insertion.  Every document is classified from str, UTF-8 bytes and a "
+    "file, and additionally from bytes and a file in a declared ISO-8859-1 and UTF-16 encoding, under warning filter 'default' and 'error' (in-process; thorough additionally samples "
     "real `python -W error` subprocesses).  Oracle: independent table tag -> class, (operation, "
     "target has direct itemID, source has direct itemID) -> class, else UnknownMosFileType; "
     "ElementTree ParseError -> MosInvalidXML; metamorphic: permuting root children, pretty-printing "
@@ -39,7 +39,7 @@ ASSUMPTIONS = [
     'a message element with no children at all (not schema-valid) may classify as its class or as UnknownMosFileType',
     'damaged texts on which ElementTree raises something other than ParseError are not generated',
 ]
-MANDATORY = ['filter:error', 'source:bytes', 'source:file', 'ea-shape:unlisted', 'ea-shape:listed',
+MANDATORY = ['filter:error', 'source:bytes', 'source:file', 'encoding:latin1', 'encoding:utf16', 'ea-shape:unlisted', 'ea-shape:listed',
              'ea-op:unknown', 'ea-op:missing', 'ea-source:absent', 'malformed', 'unknown-root',
              'nested-decoy', 'envelope-permuted', 'plain-tag']
 
@@ -74,15 +74,30 @@ def expected(text):
     return {B.EA_TABLE.get((op, t_item, s_item), 'UnknownMosFileType')}
 
 
-_tmpdir = None
+ENCODINGS = {'latin1': ('ISO-8859-1', 'iso-8859-1'), 'utf16': ('UTF-16', 'utf-16')}
+
+
+def encoded(text, enc):
+    """The document as bytes in a declared non-UTF-8 encoding (None if not encodable)."""
+    decl, codec = ENCODINGS[enc]
+    body = text[text.index('?>') + 2:] if text.startswith('<?xml') else text
+    return f'<?xml version="1.0" encoding="{decl}"?>'.encode(codec)[0 if enc != 'utf16' else 0:] + \
+        (body.encode(codec)[2:] if enc == 'utf16' else body.encode(codec))
+
+
+def encodable(text, enc):
+    try:
+        encoded(text, enc)
+        return True
+    except (UnicodeEncodeError, ValueError):
+        return False
 
 
 def _tmp():
-    global _tmpdir
-    if _tmpdir is None:
-        _tmpdir = os.path.join(env.WORK_DIR, f'c08-{os.getpid()}')
-        os.makedirs(_tmpdir, exist_ok=True)
-    return _tmpdir
+    # per process (workers are forked: never cache the path across a fork)
+    d = os.path.join(env.WORK_DIR, f'c08-{os.getpid()}')
+    os.makedirs(d, exist_ok=True)
+    return d
 
 
 def classify(text, source='str', filt='default'):
@@ -94,10 +109,12 @@ def classify(text, source='str', filt='default'):
                 mo = MosFile.from_string(text)
             elif source == 'bytes':
                 mo = MosFile.from_string(text.encode('utf-8'))
+            elif source.startswith('bytes:'):
+                mo = MosFile.from_string(encoded(text, source.split(':')[1]))
             else:
                 path = os.path.join(_tmp(), 'doc.mos.xml')
-                with open(path, 'w', encoding='utf-8') as f:
-                    f.write(text)
+                with open(path, 'wb') as f:
+                    f.write(encoded(text, source.split(':')[1]) if ':' in source else text.encode('utf-8'))
                 mo = MosFile.from_file(path)
             return type(mo).__name__, None
         except Exception as e:
@@ -138,11 +155,20 @@ def rejudge(case):
     return judge_doc(case)
 
 
-def record_doc(col, text, classes, sources=('str', 'bytes', 'file'), filters=('default', 'error')):
+def record_doc(col, text, classes, sources=('str', 'bytes', 'file'), filters=('default', 'error'),
+               encodings=True):
+    sources = list(sources)
+    if encodings:
+        # the same document in a declared ISO-8859-1 / UTF-16 encoding, from bytes and from a file
+        for enc in ENCODINGS:
+            if encodable(text, enc):
+                sources += [f'bytes:{enc}', f'file:{enc}']
     for source in sources:
         for filt in filters:
             case = {'doc': text, 'source': source, 'filter': filt}
-            cl = list(classes) + [f'source:{source}', f'filter:{filt}']
+            cl = list(classes) + [f'source:{source.split(":")[0]}', f'filter:{filt}']
+            if ':' in source:
+                cl.append(f'encoding:{source.split(":")[1]}')
             col.record(case, True, cl, judge_doc(case), key=h64(text, source, filt))
 
 
@@ -350,7 +376,7 @@ def shard_hyp(args):
             col.excluded['damaged text on which ElementTree raises a non-ParseError'] += 1
             return
         record_doc(col, text, ['malformed' if not wf else 'damaged-but-well-formed'],
-                   sources=('str', 'bytes'))
+                   sources=('str', 'bytes'), encodings=False)
     drive.run_given(damaged(), two, n // 2, seed + 7)
     shutil.rmtree(_tmp(), ignore_errors=True)
     return col
